@@ -59,6 +59,7 @@ type Violation struct {
 	Stack    string            `json:"stack,omitempty"`
 	Replayed string            `json:"replayed,omitempty"` // confirmed | not-reproduced | skipped
 	File     string            `json:"file,omitempty"`
+	Gate     []int             `json:"gate,omitempty"` // goroutine completion order
 }
 
 func (v *Violation) Key() string { return v.Kind + "|" + v.KnownID + "|" + v.Msg }
@@ -156,7 +157,7 @@ type pathCtx struct {
 	newPrefixes    [][]int
 	funcs          map[string]int
 	exts           map[string]int
-	goq            []func() // pending goroutine bodies
+	goq            []pendingGo // pending goroutine bodies
 	fresh          int
 	now            value
 	hashApps       []hashApp
@@ -164,6 +165,79 @@ type pathCtx struct {
 	tier           int
 	interp         *interpreter
 	concolic       map[string]uint64 // test mode: decisions follow this assignment
+
+	// goroutine model (DESIGN 3.5)
+	goSeq      int // goroutines created so far
+	gor        int // id (1-based) of the goroutine body being run, 0 = main
+	locked     int // depth of Once/Mutex protected regions
+	access     map[int]*accessSet
+	schedOrder []int // completion order chosen so far (0-based creation index)
+}
+
+type accessSet struct {
+	reads, writes map[*value]string
+}
+
+// noteAccess records a heap access by the running goroutine body.
+func (x *pathCtx) noteAccess(p *value, write bool, fr *frame) {
+	if x.gor == 0 || x.locked > 0 || p == nil {
+		return
+	}
+	a := x.access[x.gor]
+	if a == nil {
+		a = &accessSet{reads: map[*value]string{}, writes: map[*value]string{}}
+		if x.access == nil {
+			x.access = map[int]*accessSet{}
+		}
+		x.access[x.gor] = a
+	}
+	where := ""
+	if fr != nil && fr.cur != nil {
+		where = fr.fn.String() + " " + fr.i.prog.Fset.Position(fr.cur.Pos()).String()
+	}
+	if write {
+		if _, ok := a.writes[p]; !ok {
+			a.writes[p] = where
+		}
+	} else if _, ok := a.reads[p]; !ok {
+		a.reads[p] = where
+	}
+}
+
+// checkRaces asserts that the write set of every goroutine body is disjoint
+// from the read and write sets of every other body (which is what justifies
+// running bodies atomically in some serial order).
+func (x *pathCtx) checkRaces() {
+	ids := make([]int, 0, len(x.access))
+	for id := range x.access {
+		ids = append(ids, id)
+	}
+	sort.Ints(ids)
+	for _, a := range ids {
+		for _, b := range ids {
+			if a >= b {
+				continue
+			}
+			A, B := x.access[a], x.access[b]
+			for p, wa := range A.writes {
+				if wb, ok := B.writes[p]; ok {
+					x.violation("assert", "[race] two concurrently started goroutine bodies write the same memory cell", "", nil, wa+" / "+wb)
+					return
+				}
+				if rb, ok := B.reads[p]; ok {
+					x.violation("assert", "[race] a goroutine body reads a memory cell another body writes", "", nil, wa+" / "+rb)
+					return
+				}
+			}
+			for p, wb := range B.writes {
+				if ra, ok := A.reads[p]; ok {
+					x.violation("assert", "[race] a goroutine body reads a memory cell another body writes", "", nil, wb+" / "+ra)
+					return
+				}
+			}
+		}
+	}
+	x.access = nil
 }
 
 func NewExplorer(prog *ssa.Program, fn *ssa.Function, module string, sizes types.Sizes, opts Options) *Explorer {
@@ -582,6 +656,7 @@ func (x *pathCtx) violation(kind, msg, knownID string, extra *Term, stack string
 	}
 	v.Model = x.modelToInputs(model)
 	v.Path = append([]int{}, x.decisions...)
+	v.Gate = append([]int{}, x.schedOrder...)
 	v.Paths = 1
 	x.ex.mu.Lock()
 	x.ex.viol[key] = append(x.ex.viol[key], v)
